@@ -1,11 +1,13 @@
 /-
   C16 — preference reversal mirrors the selected criteria inside their range.
-  Property theorems only (helper lemmas: Rdm/Lemmas/BiasAReversal.lean).  Model:
+  Property theorems only (helper lemmas: Rdm/Lemmas/BiasAReversal.lean, BiasARange.lean,
+  BiasAReversalSpec.lean).  Model:
   Rdm/Model/BiasesA.lean (`reversalApply`), tied to the Go code bit-for-bit by the stage
   `reversal-apply` of harness/main/c16.go.
 -/
 import Rdm.Lemmas.BiasAReversal
 import Rdm.Lemmas.BiasARange
+import Rdm.Lemmas.BiasAReversalSpec
 import Rdm.Spec.C16
 set_option linter.unusedSectionVars false
 open Rdm Rdm.BiasA
@@ -153,14 +155,77 @@ theorem report_is_faithful {sel : List (Crit α)} {cur res : DMP α} {rep : List
   rw [hall, hrep]
   exact reversalReport_values hnd (mapM_ok_forall₂ hm)
 
+/-! ## the spec checker accepts the model's output -/
+
+/-- **`Spec.C16.check` (the checker the driver op `check-c16` evaluates on the implementation's output,
+    with `ordered` = what the resolver returns for the same state) accepts the model's output**, all
+    five clauses at once: selected = first `k` of the ordering with `k` an admissible pivot, report
+    ranges = declared-or-observed, every known alternative holds and reports `hi + lo − v`, frame
+    (criteria, parameters, ids, order, split, key sets, unselected values), observed ranges preserved.
+    The exact model meets the 1e-12 tolerance clauses with slack 0.
+    Domain hypotheses (true for every validated request):
+    * `hc`  criteria ids distinct, `ha` alternative ids distinct (`Validate`);
+    * `hk`  the value keys of every alternative are distinct (Go maps; the spec's `sameIds` demands
+            duplicate-free key lists);
+    * `hne` if anything is reversed there is at least one known alternative (with no alternative at all
+            the code reports the range `(0,0)` for an undeclared range while the spec's observed range
+            of an empty list does not exist — outside the property's domain). -/
+theorem reversal_satisfies_spec {eps : Rat} {c : SplitCond Rat} {name : String} {cur res : DMP Rat}
+    {d : Draws Rat} {rep : List (Reversed Rat)} {ordered : List (Crit Rat)}
+    (h : reversalApply eps c name cur d = .ok (res, rep))
+    (ho : orderCriteria eps name cur d = .ok ordered)
+    (hc : (cur.crit.map (·.id)).Nodup) (ha : (cur.all.map (·.id)).Nodup)
+    (hk : ∀ a ∈ cur.all, a.vals.keys.Nodup) (hne : rep ≠ [] → cur.all ≠ []) :
+    Spec.C16.check c ordered cur res rep = true :=
+  c16spec_check h ho hc ha hk hne
+
+/-- the verdict string the driver prints for the model's output is `"ok"` -/
+theorem reversal_explain_ok {eps : Rat} {c : SplitCond Rat} {name : String} {cur res : DMP Rat}
+    {d : Draws Rat} {rep : List (Reversed Rat)} {ordered : List (Crit Rat)}
+    (h : reversalApply eps c name cur d = .ok (res, rep))
+    (ho : orderCriteria eps name cur d = .ok ordered)
+    (hc : (cur.crit.map (·.id)).Nodup) (ha : (cur.all.map (·.id)).Nodup)
+    (hk : ∀ a ∈ cur.all, a.vals.keys.Nodup) (hne : rep ≠ [] → cur.all ≠ []) :
+    Spec.C16.explain c ordered cur res rep = "ok" :=
+  c16spec_explain_of_check (c16spec_check h ho hc ha hk hne)
+
+/-! ### the hypotheses are satisfiable together -/
+
+/- the example state `c16spec_exState` (two considered and one not considered alternative, an undeclared
+   and a declared range) and split condition `c16spec_exCond` (ratio ½) are defined in
+   Lemmas/BiasAReversalSpec.lean -/
+
+/-- a run that reverses one criterion (`c1`, undeclared range, observed over three alternatives) and
+    satisfies every hypothesis of `reversal_satisfies_spec` -/
+example : ∃ (res : DMP Rat) (rep : List (Reversed Rat)) (ordered : List (Crit Rat)),
+    reversalApply 0 c16spec_exCond Facts.orderingRandom c16spec_exState [1] = .ok (res, rep) ∧
+    orderCriteria 0 Facts.orderingRandom c16spec_exState [1] = .ok ordered ∧
+    (c16spec_exState.crit.map (·.id)).Nodup ∧ (c16spec_exState.all.map (·.id)).Nodup ∧
+    (∀ a ∈ c16spec_exState.all, a.vals.keys.Nodup) ∧ rep ≠ [] ∧ (rep ≠ [] → c16spec_exState.all ≠ []) := by
+  have hb : (match reversalApply 0 c16spec_exCond Facts.orderingRandom c16spec_exState [1],
+      orderCriteria 0 Facts.orderingRandom c16spec_exState [1] with
+      | .ok (_, rep), .ok _ => !rep.isEmpty
+      | _, _ => false) = true := by decide +kernel
+  cases h1 : reversalApply 0 c16spec_exCond Facts.orderingRandom c16spec_exState [1] with
+  | error e => rw [h1] at hb; cases hb
+  | ok p =>
+    obtain ⟨res, rep⟩ := p
+    cases h2 : orderCriteria 0 Facts.orderingRandom c16spec_exState [1] with
+    | error e => rw [h1, h2] at hb; cases hb
+    | ok ordered =>
+      rw [h1, h2] at hb
+      refine ⟨res, rep, ordered, rfl, rfl, by decide, by decide, by decide, ?_, fun _ => by decide⟩
+      intro e
+      rw [e] at hb
+      cases hb
+
 /-
   Not proved here (checked on the implementation's output by `check-c16` and by the oracle
   `reversal-involution` of harness/main/c16.go):
-  * `Spec.C16.check (model output) = true` as one statement — the clauses are proved separately above
-    (`selected_first_k`/`selected_countOk`, `values_mirrored`, `frame`, `range_preserved`,
-    `report_is_faithful`);
   * the floating-point form of the involution (1e-9 relative on the real code, exact on dyadic data):
-    over the rationals it is `reversing_twice_restores`.
+    over the rationals it is `reversing_twice_restores`;
+  * `reversal_satisfies_spec` is about the exact (rational) model: the 1e-12 relative slack the spec
+    grants to the floating-point code is met there with slack 0 (`c16spec_close_self`).
 -/
 /-- the constants and names this property depends on were re-read from the working tree on this run
     (none fell back to its pinned value because its declaration could not be located) -/
